@@ -116,7 +116,7 @@ def chain(p: Project, *edits) -> Dict[str, str]:
     cur = p
     for ed in edits:
         overlay.update(ed(cur))
-        cur = Project(str(p.repo), overlay)
+        cur = Project(str(p.repo), overlay, normalise=False)
     return overlay
 
 
